@@ -250,11 +250,17 @@ where
                         if counting {
                             st.evaluations += 1;
                         }
-                        let verdict = if counting {
-                            case(&bytes, &mut st, true)
-                        } else {
-                            let mut scratch = Stats::default();
-                            case(&bytes, &mut scratch, false)
+                        // a panic that escapes the case function is a harness fault, never a violation
+                        let verdict = match crate::engine::catch(|| {
+                            if counting {
+                                case(&bytes, &mut st, true)
+                            } else {
+                                let mut scratch = Stats::default();
+                                case(&bytes, &mut scratch, false)
+                            }
+                        }) {
+                            Ok(v) => v,
+                            Err(p) => Verdict::HarnessBug(format!("case function panicked: {}", p.render())),
                         };
                         match verdict {
                             Verdict::Pass => Ok(()),
